@@ -6,27 +6,27 @@ open Nebula.Net Nebula.Dns Nebula.Spec.Dns
 def K (s : St) (n : Name) : Bool := hasKey s.map4 n || hasKey s.map6 n
 
 /-- the specification's published-name state describes the responder's tables. -/
-structure Pub (me : Self) (st : Bool × List Name) (s : St) : Prop where
-  en : st.1 = s.enabled
-  keys : ∀ n, st.2.contains n = K s n
-  self_eq : s.self = me
-  host : s.selfHost = [] ∨ ∃ name as, me = some (name, as) ∧ s.selfHost = lower name ++ ['.']
+structure Pub (st : PubSt) (s : St) : Prop where
+  en : st.en = s.enabled
+  keys : ∀ n, st.names.contains n = K s n
+  host : st.selfHost = s.selfHost
+  cur : st.cur = s.self
 
 theorem contains_filter_ne (l : List Name) (k n : Name) :
     (l.filter (· != k)).contains n = (!(n == k) && l.contains n) := by
   rw [Bool.eq_iff_iff]
   simp [List.mem_filter, and_comm]
 
-theorem pub_add {me : Self} {st : Bool × List Name} {s : St} (h : Pub me st s) (host : Name) (addrs : List Addr) :
-    Pub me (if st.1 && !addrs.isEmpty then (st.1, lower host :: st.2) else st) (add s host addrs) := by
+theorem pub_add {st : PubSt} {s : St} (h : Pub st s) (host : Name) (addrs : List Addr) :
+    Pub (if st.en && !addrs.isEmpty then { st with names := lower host :: st.names } else st) (add s host addrs) := by
   unfold add
   cases hen : s.enabled
-  · have h1 : st.1 = false := by rw [h.en, hen]
+  · have h1 : st.en = false := by rw [h.en, hen]
     simp only [Bool.not_false, if_true, h1, Bool.false_and, Bool.false_eq_true, if_false]
     exact h
-  · have h1 : st.1 = true := by rw [h.en, hen]
+  · have h1 : st.en = true := by rw [h.en, hen]
     simp only [Bool.not_true, Bool.false_eq_true, if_false, h1, Bool.true_and]
-    refine ⟨?_, ?_, h.self_eq, h.host⟩
+    refine ⟨?_, ?_, ?_, ?_⟩
     · split <;> simp [h1, hen]
     · intro n
       have := addLoop_published (lower host) addrs s.map4 s.map6 n
@@ -37,89 +37,84 @@ theorem pub_add {me : Self} {st : Bool × List Name} {s : St} (h : Pub me st s) 
         rw [h.keys n, K, Bool.or_comm]
       · simp only [Bool.not_true, Bool.false_eq_true, if_false, Bool.and_false, Bool.or_false]
         exact h.keys n
+    · split <;> exact h.host
+    · split <;> exact h.cur
 
-theorem pub_seed {me : Self} {st : Bool × List Name} {s : St} (h : Pub me st s) (hen : s.enabled = true)
-    (name : Name) (as : List Addr) (hme : me = some (name, as)) :
-    Pub me (true, if as.isEmpty then st.2.filter (· != lower name ++ ['.'])
-                  else (lower name ++ ['.']) :: st.2.filter (· != lower name ++ ['.'])) (seedSelf s) := by
-  have hself : s.self = some (name, as) := by rw [h.self_eq, hme]
-  have hstale : (s.selfHost != [] && s.selfHost != lower name ++ ['.']) = false := by
-    rcases h.host with e | ⟨name', as', e1, e2⟩
-    · simp [e]
-    · rw [hme] at e1
-      injection e1 with e1
-      injection e1 with e1 _
-      subst e1
-      simp [e2]
-  unfold seedSelf
-  simp only [hen, Bool.not_true, Bool.false_eq_true, if_false, hself, hstale]
-  refine ⟨by simp [hen], ?_, hme.symm, Or.inr ⟨name, as, hme, rfl⟩⟩
-  intro n
-  have := addLoop_published (lower name ++ ['.']) as (s.map4.del (lower name ++ ['.'])) (s.map6.del (lower name ++ ['.'])) n
-  simp only [K] at this ⊢
-  rw [this, hasKey_del, hasKey_del]
-  have hk := h.keys n
-  simp only [K] at hk
-  cases he : as.isEmpty
-  · simp only [Bool.false_eq_true, if_false, List.contains_cons, contains_filter_ne, hk, Bool.not_false, Bool.and_true]
-    cases (n == lower name ++ ['.']) <;> simp
-  · simp only [if_true, contains_filter_ne, hk, Bool.not_true, Bool.and_false, Bool.or_false]
-    cases (n == lower name ++ ['.']) <;> simp
+/-- `seedSelf` against the specification's `seedStep` (stale own name withdrawn, current one published). -/
+theorem pub_seed {st : PubSt} {s : St} (h : Pub st s) : Pub (seedStep st) (seedSelf s) := by
+  unfold seedStep seedSelf
+  cases hen : s.enabled
+  · have h1 : st.en = false := by rw [h.en, hen]
+    simp only [h1, Bool.not_false, if_true]
+    exact h
+  · have h1 : st.en = true := by rw [h.en, hen]
+    cases hs : s.self with
+    | none =>
+      have h2 : st.cur = none := by rw [h.cur, hs]
+      simp only [h1, h2, Bool.not_true, Bool.false_eq_true, if_false]
+      exact h
+    | some p =>
+      cases p with | mk name as =>
+      have h2 : st.cur = some (name, as) := by rw [h.cur, hs]
+      simp only [h1, h2, Bool.not_true, Bool.false_eq_true, if_false]
+      refine ⟨by simp [h1, hen], ?_, rfl, by simp [h2, hs]⟩
+      intro n
+      have := addLoop_published (lower name ++ ['.']) as
+        ((if (s.selfHost != [] && s.selfHost != lower name ++ ['.']) = true then s.map4.del s.selfHost else s.map4).del (lower name ++ ['.']))
+        ((if (s.selfHost != [] && s.selfHost != lower name ++ ['.']) = true then s.map6.del s.selfHost else s.map6).del (lower name ++ ['.'])) n
+      simp only [K] at this ⊢
+      rw [this, hasKey_del, hasKey_del, h.host]
+      have hk := h.keys n
+      simp only [K] at hk
+      cases hst : (s.selfHost != [] && s.selfHost != lower name ++ ['.'])
+      · simp only [Bool.false_eq_true, if_false]
+        cases he : as.isEmpty
+        · simp only [Bool.false_eq_true, if_false, List.contains_cons, contains_filter_ne, hk, Bool.not_false, Bool.and_true]
+          cases (n == lower name ++ ['.']) <;> simp
+        · simp only [if_true, contains_filter_ne, hk, Bool.not_true, Bool.and_false, Bool.or_false]
+          cases (n == lower name ++ ['.']) <;> simp
+      · simp only [if_true, hasKey_del]
+        cases he : as.isEmpty
+        · simp only [Bool.false_eq_true, if_false, List.contains_cons, contains_filter_ne, hk, Bool.not_false, Bool.and_true]
+          cases (n == lower name ++ ['.']) <;> cases (n == s.selfHost) <;> simp
+        · simp only [if_true, contains_filter_ne, hk, Bool.not_true, Bool.and_false, Bool.or_false]
+          cases (n == lower name ++ ['.']) <;> cases (n == s.selfHost) <;> simp
 
-theorem pub_apply {me : Self} {st : Bool × List Name} {s : St} (h : Pub me st s) (e : Ev) :
-    Pub me (publishStep me st e) (apply s e) := by
+theorem pub_apply {st : PubSt} {s : St} (h : Pub st s) (e : Ev) :
+    Pub (publishStep st e) (apply s e) := by
   cases e with
   | hs k n as =>
     have := pub_add h (n ++ ['.']) as
     simp only [publishStep, apply, addHostInfo]
-    exact ⟨this.en, this.keys, this.self_eq, this.host⟩
-  | seed =>
-    simp only [publishStep, apply]
-    cases hen : s.enabled
-    · have h1 : st.1 = false := by rw [h.en, hen]
-      have : seedSelf s = s := by simp [seedSelf, hen]
-      rw [this, h1]
-      cases st with | mk a b => simp only at h1; subst h1; exact h
-    · have h1 : st.1 = true := by rw [h.en, hen]
-      cases me with
-      | none =>
-        have hs : s.self = none := h.self_eq
-        have : seedSelf s = s := by simp [seedSelf, hen, hs]
-        rw [this, h1]
-        cases st with | mk a b => simp only at h1; subst h1; exact h
-      | some p =>
-        cases p with | mk name as =>
-        rw [h1]
-        exact pub_seed h hen name as rfl
+    exact ⟨this.en, this.keys, this.host, this.cur⟩
+  | seed => exact pub_seed h
   | disable =>
     simp only [publishStep, apply, clearRecords]
-    exact ⟨rfl, fun n => by simp [K, hasKey, Tbl.get], h.self_eq, Or.inl rfl⟩
+    exact ⟨rfl, fun n => by simp [K, hasKey, Tbl.get], rfl, h.cur⟩
   | enable =>
     simp only [publishStep, apply]
-    have h' : Pub me (true, st.2) { s with enabled := true } :=
-      ⟨rfl, h.keys, h.self_eq, h.host⟩
-    cases me with
-    | none =>
-      have hs : s.self = none := h.self_eq
-      have : seedSelf { s with enabled := true } = { s with enabled := true } := by simp [seedSelf, hs]
-      rw [this]; exact h'
-    | some p =>
-      cases p with | mk name as =>
-      exact pub_seed h' rfl name as rfl
+    exact pub_seed (st := { st with en := true }) (s := { s with enabled := true }) ⟨rfl, h.keys, h.host, h.cur⟩
+  | renew n as =>
+    simp only [publishStep, apply]
+    exact pub_seed (st := { st with cur := some (n, as) }) (s := { s with self := some (n, as) }) ⟨h.en, h.keys, h.host, rfl⟩
+  | drop k =>
+    simp only [publishStep, apply]
+    exact ⟨h.en, h.keys, h.host, h.cur⟩
 
-theorem pub_foldl {me : Self} (evs : List Ev) :
-    ∀ (st : Bool × List Name) (s : St), Pub me st s → Pub me (evs.foldl (publishStep me) st) (evs.foldl apply s) := by
+theorem pub_foldl (evs : List Ev) :
+    ∀ (st : PubSt) (s : St), Pub st s → Pub (evs.foldl publishStep st) (evs.foldl apply s) := by
   induction evs with
   | nil => intro st s h; exact h
   | cons e es ih => intro st s h; exact ih _ _ (pub_apply h e)
 
-/-- "Known name" of the specification (a certificate name seen in a handshake, or the own one, since
-DNS was last disabled) is exactly "the responder holds an address record for it". -/
+theorem pub_run (me : Self) (evs : List Ev) : Pub (pubAfter me evs) (run me evs) :=
+  pub_foldl evs _ _ ⟨rfl, fun n => by simp [K, hasKey, Tbl.get, St.init], rfl, rfl⟩
+
+/-- "Known name" of the specification (FQDN of a certificate seen in a handshake since DNS was last
+disabled, or of the current own certificate) is exactly "the responder holds an address record for it". -/
 theorem known_eq_nameExists (me : Self) (evs : List Ev) (n : Name) :
     known me evs n = nameExists (run me evs) n := by
-  have h0 : Pub me (true, []) (St.init me) :=
-    ⟨rfl, fun n => by simp [K, hasKey, Tbl.get, St.init], rfl, Or.inl rfl⟩
-  have := (pub_foldl evs _ _ h0).keys (lower n)
-  simpa [known, published, run, K, hasKey, nameExists] using this
+  have := (pub_run me evs).keys (lower n)
+  simpa [known, published, K, hasKey, nameExists] using this
 
 end Nebula.Lemmas.Dns
